@@ -267,6 +267,7 @@ static bool traverse_c10(void)
     uint8_t *out = (uint8_t *) vf_xmalloc(D->len);      /* exactly the input size: one byte more would overflow under ASan */
     memset(out, 0xA5, D->len);
     binson_writer w;
+    memset(&w, 0x77, sizeof w);      /* a writer object holding arbitrary (but fixed) bytes before init */
     binson_writer_init(&w, out, D->len);
     ok = isobj ? binson_parser_go_into_object(p) : binson_parser_go_into_array(p);
     if (isobj) binson_write_object_begin(&w); else binson_write_array_begin(&w);
@@ -340,6 +341,7 @@ static bool traverse_c05(void)
     uint8_t *out = L.buf;           /* the live buffer (exact size, ASan-guarded) is the writer's destination */
     memset(out, 0xA5, D->len);
     binson_writer w;
+    memset(&w, 0x77, sizeof w);      /* a writer object holding arbitrary (but fixed) bytes before init */
     binson_writer_init(&w, out, D->len);
     if (isobj) binson_write_object_begin(&w); else binson_write_array_begin(&w);
     if (!write_tree(&w, 0)) return false;
